@@ -176,6 +176,130 @@ fn triecheck() -> i32 {
     0
 }
 
+/// C05: a segment index holding one entry `id` for uid "u"; retire / remove it by its label and
+/// check the index no longer lists it. exit 3 = the entry is still listed (violation reproduced).
+fn retirekey(id: u32, how: &str) -> i32 {
+    use snel_db::engine::core::segment::segment_id::SegmentId;
+    use snel_db::engine::core::segment::segment_index::{SegmentEntry, SegmentIndex};
+    let dir = tempfile::tempdir().unwrap();
+    let rt = tokio::runtime::Builder::new_current_thread().enable_all().build().unwrap();
+    let mut idx = match rt.block_on(SegmentIndex::load(dir.path())) {
+        Ok(i) => i,
+        Err(e) => {
+            println!("SegmentIndex::load failed: {e}");
+            return 2;
+        }
+    };
+    idx.insert_entry(SegmentEntry { id, uids: vec!["u".to_string()] });
+    let label = SegmentId::new(id).dir_name();
+    let removed = if how == "retire" {
+        idx.retire_uid_from_labels("u", std::iter::once(label.as_str())).len()
+    } else {
+        idx.remove_labels(std::iter::once(label.as_str())).len()
+    };
+    let still = idx.list_for_uid("u").len();
+    println!("index with segment {label} for uid u; {how} by label: entries returned = {removed}, still listed for u = {still}");
+    if removed == 1 && still == 0 { 0 } else { 3 }
+}
+
+/// C11: a RangeAllocator whose stored offset for `level` is `offset` (seeded from an existing
+/// directory name, as ShardContext::new and KWayCountPolicy::plan do); allocate twice.
+/// exit 3 = an id outside the level's range, or not strictly increasing.
+fn allocstep(level: u32, offset: u32) -> i32 {
+    use snel_db::engine::core::segment::range_allocator::RangeAllocator;
+    use snel_db::engine::core::segment::segment_id::{LEVEL_SPAN, SegmentId};
+    let mut a = if offset == 0 {
+        RangeAllocator::new()
+    } else if offset <= LEVEL_SPAN {
+        let seed = SegmentId::new(level * LEVEL_SPAN + (offset - 1)).dir_name();
+        RangeAllocator::from_existing_ids(std::iter::once(seed.as_str()))
+    } else if offset < 50_000_000 {
+        let mut a = RangeAllocator::new();
+        for _ in 0..offset {
+            a.next_for_level(level);
+        }
+        a
+    } else {
+        println!("offset {offset} too large to reach by calls");
+        return 2;
+    };
+    let id1 = a.next_for_level(level);
+    let id2 = a.next_for_level(level);
+    let (l1, l2) = (SegmentId::new(id1).level(), SegmentId::new(id2).level());
+    let other = RangeAllocator::new().next_for_level(l1);
+    println!("level {level} after {offset} allocations: next ids {id1} (level {l1}), {id2} (level {l2}); first id of level {l1} is {other}");
+    if l1 == level && l2 == level && id2 > id1 { 0 } else { 3 }
+}
+
+/// System-level replay: runs a command history through the real parser, dispatcher, shard
+/// manager, WAL and flush workers on the directories named by SNELDB_CONFIG (written by the
+/// caller). Items are separated by ';': command text, or `!sleep <ms>`, `!wait` (wait for queued
+/// flushes), `!shutdown` (graceful), `!kill` (exit at once without any shutdown step: what the
+/// disk holds at that instant is what a restart sees). Every response is printed as
+/// `RESP <index> <json string of the raw response bytes>`.
+fn history(script: &str) -> i32 {
+    use snel_db::command::dispatcher::dispatch_command;
+    use snel_db::command::parser::command::parse_command;
+    use snel_db::engine::schema::SchemaRegistry;
+    use snel_db::engine::shard::manager::ShardManager;
+    use snel_db::shared::config::CONFIG;
+    use snel_db::shared::response::JsonRenderer;
+    use std::io::Write;
+    use std::sync::Arc;
+    let rt = tokio::runtime::Builder::new_multi_thread().worker_threads(4).enable_all().build().unwrap();
+    rt.block_on(async move {
+        let registry = Arc::new(tokio::sync::RwLock::new(SchemaRegistry::new().expect("schema registry")));
+        let base_dir = std::path::PathBuf::from(&CONFIG.engine.data_dir);
+        let wal_dir = std::path::PathBuf::from(&CONFIG.wal.dir);
+        let sm = ShardManager::new(CONFIG.engine.shard_count, base_dir, wal_dir).await;
+        for (i, item) in script.split(';').map(|s| s.trim()).filter(|s| !s.is_empty()).enumerate() {
+            if let Some(ms) = item.strip_prefix("!sleep") {
+                tokio::time::sleep(std::time::Duration::from_millis(ms.trim().parse().unwrap_or(100))).await;
+                continue;
+            }
+            if item == "!wait" {
+                let errs = sm.wait_for_flush_completion().await;
+                println!("RESP {i} {}", serde_json::to_string(&format!("wait: {errs:?}")).unwrap());
+                continue;
+            }
+            if item == "!shutdown" {
+                let f = sm.flush_all(Arc::clone(&registry)).await;
+                let e = sm.shutdown_all().await;
+                println!("RESP {i} {}", serde_json::to_string(&format!("shutdown: flush {f:?} stop {e:?}")).unwrap());
+                continue;
+            }
+            if item == "!kill" {
+                println!("RESP {i} \"killed\"");
+                let _ = std::io::stdout().flush();
+                unsafe { libc_exit(9) };
+            }
+            let cmd = match parse_command(item) {
+                Ok(c) => c,
+                Err(e) => {
+                    println!("RESP {i} {}", serde_json::to_string(&format!("parse error: {e:?}")).unwrap());
+                    continue;
+                }
+            };
+            let mut out: Vec<u8> = Vec::new();
+            let r = dispatch_command(&cmd, &mut out, &sm, &registry, None, None, &JsonRenderer).await;
+            if let Err(e) = r {
+                out.extend_from_slice(format!(" <io error {e}>").as_bytes());
+            }
+            println!("RESP {i} {}", serde_json::to_string(&String::from_utf8_lossy(&out)).unwrap());
+        }
+        let _ = std::io::stdout().flush();
+        // leave like a kill as well: no implicit graceful steps
+        unsafe { libc_exit(0) };
+    })
+}
+
+unsafe extern "C" {
+    fn _exit(code: i32) -> !;
+}
+unsafe fn libc_exit(code: i32) -> ! {
+    unsafe { _exit(code) }
+}
+
 /// C19 native witness: real WalCleaner with the global configuration is not available here,
 /// so this case only exercises deletion with the cut-off (non-conservative default path).
 fn main() {
@@ -186,6 +310,9 @@ fn main() {
         Some("triecheck") => triecheck(),
         Some("aggu64") if args.len() >= 3 => agg_u64(args[2].parse().unwrap()),
         Some("calendar") if args.len() >= 6 => calendar_case(args[2].parse().unwrap(), args[3].parse().unwrap(), &args[4], args[5].parse().unwrap()),
+        Some("retirekey") if args.len() >= 4 => retirekey(args[2].parse().unwrap(), &args[3]),
+        Some("allocstep") if args.len() >= 4 => allocstep(args[2].parse().unwrap(), args[3].parse().unwrap()),
+        Some("history") if args.len() >= 3 => history(&args[2]),
         Some("stringcell") if args.len() >= 3 => stringcell(&args[2]),
         Some("surf") if args.len() >= 6 => surf_case(
             args[2].parse().unwrap(),
